@@ -7,6 +7,7 @@ import (
 	orgpb "github.com/google/fhir/go/proto/google/fhir/proto/r4/core/resources/organization_go_proto"
 	ppb "github.com/google/fhir/go/proto/google/fhir/proto/r4/core/resources/patient_go_proto"
 	perpb "github.com/google/fhir/go/proto/google/fhir/proto/r4/core/resources/person_go_proto"
+	"github.com/verily-src/fhirpath-go/fhirpath/internal/reflection"
 	"github.com/verily-src/fhirpath-go/fhirpath/system"
 	"github.com/verily-src/fhirpath-go/internal/verifrt"
 )
@@ -66,6 +67,51 @@ func VerifHarness_C01_HeterogeneousNavigation() {
 	name := []string{"name", "contact", "other", "target", "family"}[verifrt.Choose("field", 5)]
 	e := &FieldExpression{FieldName: name, Permissive: verifrt.NondetBool("permissive")}
 	res, err := e.Evaluate(&Context{ExternalConstants: map[string]any{}}, in)
+	verifrt.Assert(err != nil || res != nil, "returns-a-collection-or-an-error")
+	verifrt.Reach("end")
+}
+
+// C01: a custom function may put anything into the collection it returns (it is passed through unchanged): nil, a Go
+// int, a Go string. Every operator over such items returns a collection or an error - the items are no System values
+// and no FHIR elements, and nothing may assume they are.
+func VerifHarness_C01_ForeignItemsAreTotal() {
+	foreign := func(label string) Expression {
+		switch verifrt.Choose(label, 5) {
+		case 0:
+			return &verifAlways{system.Collection{nil}}
+		case 1:
+			return &verifAlways{system.Collection{42}}
+		case 2:
+			return &verifAlways{system.Collection{"go string"}}
+		case 3:
+			return &verifAlways{system.Collection{nil, 42}}
+		default:
+			return verifLit(system.Integer(1))
+		}
+	}
+	l, r := foreign("l"), foreign("r")
+	var e Expression
+	switch verifrt.Choose("node", 9) {
+	case 0:
+		e = &EqualityExpression{Left: l, Right: r, Not: verifrt.NondetBool("not")}
+	case 1:
+		e = &ComparisonExpression{Left: l, Right: r, Op: Lt}
+	case 2:
+		e = &ArithmeticExpression{Left: l, Right: r, Op: EvaluateAdd}
+	case 3:
+		e = &BooleanExpression{Left: l, Right: r, Op: And}
+	case 4:
+		e = &ConcatExpression{Left: l, Right: r}
+	case 5:
+		e = &IsExpression{Expr: l, Type: reflection.MustCreateTypeSpecifier("System", "Integer")}
+	case 6:
+		e = &AsExpression{Expr: l, Type: reflection.MustCreateTypeSpecifier("FHIR", "Patient")}
+	case 7:
+		e = &ExpressionSequence{Expressions: []Expression{l, &IndexExpression{Index: r}}}
+	default:
+		e = &ExpressionSequence{Expressions: []Expression{l, &FieldExpression{FieldName: "id"}}}
+	}
+	res, err := e.Evaluate(&Context{ExternalConstants: map[string]any{}}, system.Collection{})
 	verifrt.Assert(err != nil || res != nil, "returns-a-collection-or-an-error")
 	verifrt.Reach("end")
 }
